@@ -50,7 +50,9 @@ def gen_level_value(rng, bo, level, wbl, depth, sizes):
 
 
 def gen_message_value(rng, bo, msg, schema_id, version, ext_ok=True, sizes=None):
-    sizes = sizes or {'ext': [0, 0, 1, 7, 8] if ext_ok else [0], 'counts': [0, 1, 2, 3], 'data': [0, 1, 2, 5, 9]}
+    # extensions: mostly small; one in ten crosses 255 so that a wire blockLength does not fit a one-byte type
+    sizes = sizes or {'ext': [0, 0, 0, 1, 1, 7, 7, 8, 8, 300] if ext_ok else [0], 'counts': [0, 1, 2, 3],
+                      'data': [0, 1, 2, 5, 9]}
     if not ext_ok:
         sizes = dict(sizes, ext=[0])
     level = msg['level']
